@@ -10,7 +10,7 @@ using namespace vh;
 
 int64_t vh_case_count(const std::string &tier, uint64_t)
 {
-    return tier == "thorough" ? 60000 : 5000;
+    return tier == "thorough" ? 400000 : 40000;
 }
 
 struct Node
